@@ -38,7 +38,9 @@ class C04(EvalCheck):
         xs = q[0]
         fails = []
         expect_ok = all(in_range(t, d, x) for d, x in enumerate(xs))
-        for path in ("member", "ev", "c"):
+        # member function, evaluator object, C wrapper with a fresh output array, and the C wrapper with the output array holding stale
+        # centers on entry (ch1..ch5: neighbour of the true center, the bisection's upper limit, margin spans, arbitrary)
+        for path in sorted(k[3:] for k in iout if k.startswith("sc.")):
             v = iout.get("sc." + path)
             if v is None:
                 continue
